@@ -56,6 +56,13 @@ def run_states(run, prop, binp, cases, mode, codes_of_interest, what):
             # are finite) the problem must show finite residuals and coefficients, and — all derivatives given — a finite Jacobian
             w = num.weights_of(c)
             model_ok = tb["phi"] is not None and num.all_finite_mat(tb["phi"]) and (w is None or all(is_finite_hex(h) for h in w))
+            if model_ok and w is not None:
+                # finite weights times finite values can still overflow: what has to be finite is the WEIGHTED basis matrix (and the
+                # weighted observations)
+                sc_ = c["scalar"]
+                wv_ = [unhx(h) for h in w]
+                model_ok = all(is_finite_hex(hx(round_to(wv_[i_] * unhx(h), sc_), sc_)) for col in tb["phi"]["cols"] for i_, h in enumerate(col)) \
+                    and all(is_finite_hex(hx(round_to(wv_[i_] * unhx(h), sc_), sc_)) for col in num.obs_of(c) for i_, h in enumerate(col))
             if tb["phi"] is not None and not num.all_finite_mat(tb["phi"]) and (ob["resid"] is not None or ob["coef"] is not None):
                 run.violation("%s, state at step %d: residuals / coefficients are exposed although the model values at the parameters in "
                               "effect are not finite (they cannot belong to these parameters)" % (what_p, k),
@@ -76,6 +83,8 @@ def run_states(run, prop, binp, cases, mode, codes_of_interest, what):
                     run.violation("%s, state at step %d: %s although the model evaluates to finite values" % (what_p, k, gone),
                                   {"case": c, "step": k, "observe": ob, "jacobian": jq, "tables": tb})
                     continue
+            if c.get("no_exact"):
+                continue        # judged by the caller (bit-exact comparison with a twin); exact arithmetic on 1e200-sized entries is slow
             t = num.state_term(c, ob, tb, jac=jq, with_jac=(mode & 4) != 0, mode=mode)
             if t is not None:
                 terms.append(t)
